@@ -17,6 +17,7 @@
 import HtpModel.Lemmas.Cost
 import HtpModel.Lemmas.Segment
 import HtpModel.Lemmas.DriverFuel
+import HtpModel.Lemmas.DriverFuelOut
 
 namespace Htp.C08
 open Htp Htp.Table Htp.Ring
@@ -106,5 +107,20 @@ theorem C08_req_driver_passes_linear (cfg : Cfg) (d : Bytes) (c : Conn.Conn) (hs
     ∀ k, Conn.reqDriverLoop cfg false (8 * d.length + 64 + k) (Conn.reqWakeOther (Conn.reqStoreChunk (some d) d.length c)) =
          Conn.reqDriverLoop cfg false (8 * d.length + 64) (Conn.reqWakeOther (Conn.reqStoreChunk (some d) d.length c)) :=
   ⟨Conn.reqData_passes_linear cfg d c hs h.2.2.1 h.clOK n hn, (Conn.reqData_fuel_enough_hist cfg d c hs h).2⟩
+
+/-- **C08 (response direction, PARTIAL)**: the full statement - "the loop of htp_connp_res_data makes a linear number of passes from any
+    between-calls state" - is NOT proved. What is: if some measure `mu` decreases with every continuing pass of the call, the loop ends within
+    `mu` passes and more fuel changes nothing (the loop machinery), and the progress lemmas for RES_IDLE (it returns the answer of the
+    RESPONSE_START callback - no analogue of S45), the chunk-data states and the close-delimited state (`Lemmas/DriverFuelOut.lean`). Missing: the
+    progress lemmas for RES_LINE, RES_HEADERS, RES_BODY_DETERMINE, the Content-Length state, RES_BODY_CHUNKED_LENGTH and RES_FINALIZE, whose
+    un-reads need an invariant along the call. A hypothesis is also needed that the request side does not need: `res_closed_with_data_spins`
+    shows that a response direction marked CLOSED and then given a data chunk spins in RES_LINE (the model's fuel runs out) - a state that, by
+    reading, no sequence of API calls reaches (close offers a NULL chunk of length 0 and the status is rewritten on return; tried on the
+    library: data after htp_connp_close is parsed normally). -/
+theorem C08_res_driver_passes_partial (cfg : Cfg) (mu : Conn.Conn → Nat) (c0 : Conn.Conn)
+    (hdec : ∀ c c2, Conn.CallReachO cfg c0 c → Conn.resNext cfg c = some c2 → mu c2 < mu c)
+    (n : Nat) (c : Conn.Conn) (hr : Conn.CallReachO cfg c0 c) (hf : mu c < n) :
+    ¬ Conn.OutOfFuelO cfg n c ∧ ∀ k, Conn.resDriverLoop cfg false (n + k) c = Conn.resDriverLoop cfg false n c :=
+  Conn.resDriverLoop_not_outOfFuel_partial cfg mu c0 hdec n c hr hf
 
 end Htp.C08
